@@ -8,7 +8,7 @@
 From Coq Require Import Reals List Bool String.
 From Verif Require Import Base.Num Base.Vec Base.VecR C11.Model C11.Proofs.
 From Verif Require Import C11.Syntax C11.Interp Gen.Solvers C11.GenProofs.
-From Verif Require Import C11.SyntaxL C11.InterpL Gen.SolversL C11.SweepProofs.
+From Verif Require Import C11.SyntaxL C11.InterpL Gen.SolversL C11.SweepProofs C11.SweepDR.
 Import ListNotations.
 Local Open Scope R_scope.
 Notation length := List.length.
@@ -742,6 +742,26 @@ Theorem gen_kaczmarz_random_whole_call_is_model :
     /\ hget (l_heap s) (OCaller "x") = Some (iterk niter 0 (fun k => kz_step_ord proj ops dflt (order k)) x).
 Proof. exact gen_kaczmarz_random_run. Qed.
 Print Assumptions gen_kaczmarz_random_whole_call_is_model.
+
+(* douglas_rachford_pd regenerated with its preamble (>= 1 operators, l = None, niter >= 1): v, p2, w2
+   are lists of NEW zero objects, z2 one new object per range class, p1, z1, w1 new objects; the main
+   loop runs niter - 1 full iterations and a last one that returns after x.assign(p1) (dr_gen_loop).
+   The callback log is the model trace and the caller's x ends as the model's returned iterate, for
+   every number of operators and every relaxation sequence lam. *)
+Theorem gen_douglas_rachford_whole_call_is_model :
+  forall (proxf : list R -> list R) (tau : R) (lam : nat -> R) (junk : string -> list R) (dflt : @drop R) (xdim : nat)
+         (ops : list (@drop R)),
+  (forall j, (j < length ops)%nat -> dr_proxl (nth j ops dflt) = None) ->
+  forall (rkey : nat -> nat) (nkeys : nat), (forall j, (j < length ops)%nat -> (rkey j < nkeys)%nat) ->
+  (1 <= length ops)%nat ->
+  forall (niter : nat) (x : list R), (1 <= niter)%nat ->
+  exists s0 s,
+    pexec (drI proxf tau lam junk dflt xdim ops 0) rkey (length ops) nkeys douglas_rachford_pd_lpre (s_init x) = Some s0
+    /\ dr_gen_loop proxf tau lam junk dflt xdim ops rkey niter 0 s0 = Some s
+    /\ l_log s = dr_trace proxf tau lam ops niter 0 (dr_init ops x)
+    /\ hget (l_heap s) (OCaller "x") = Some (dr_run proxf tau lam ops niter x).
+Proof. exact gen_dr_run. Qed.
+Print Assumptions gen_douglas_rachford_whole_call_is_model.
 Local Close Scope string_scope.
 
 (* ------------------------------------------------------------ non-vacuity *)
